@@ -11,6 +11,47 @@ use serde::{Deserialize, Serialize};
 use serde_json::Number;
 use thiserror::Error;
 
+/// Decodes the escape sequences accepted by the `string` rule of the grammars (the JSON ones),
+/// so that a literal denotes the same value as the equivalent parameter.
+pub fn unescape_string(s: &str) -> String {
+    let mut res = String::with_capacity(s.len());
+    let mut chars = s.chars();
+    while let Some(c) = chars.next() {
+        if c != '\\' {
+            res.push(c);
+            continue;
+        }
+        match chars.next() {
+            Some('b') => res.push('\u{8}'),
+            Some('f') => res.push('\u{c}'),
+            Some('n') => res.push('\n'),
+            Some('r') => res.push('\r'),
+            Some('t') => res.push('\t'),
+            Some('u') => {
+                let hex: String = chars.by_ref().take(4).collect();
+                let mut code = u32::from_str_radix(&hex, 16).unwrap_or(0xFFFD);
+                if (0xD800..0xDC00).contains(&code) {
+                    //surrogate pair
+                    let mut look = chars.clone();
+                    if look.next() == Some('\\') && look.next() == Some('u') {
+                        let low: String = look.by_ref().take(4).collect();
+                        if let Ok(low) = u32::from_str_radix(&low, 16) {
+                            if (0xDC00..0xE000).contains(&low) {
+                                code = 0x10000 + ((code - 0xD800) << 10) + (low - 0xDC00);
+                                chars = look;
+                            }
+                        }
+                    }
+                }
+                res.push(char::from_u32(code).unwrap_or('\u{FFFD}'));
+            }
+            Some(other) => res.push(other),
+            None => res.push('\\'),
+        }
+    }
+    res
+}
+
 #[derive(Debug, Clone)]
 pub enum FieldValue {
     Variable(String),
